@@ -42,7 +42,8 @@ PROPERTIES = {
     ),
     "C07": dict(
         modules=["contracts.c07_scalars", "contracts.c05_result_fields", "contracts.c06_input_types"],
-        bounded=[_bounded.lazy("contracts.c11_multipart", "bounded_wire"), _bounded.lazy("contracts.e2e_scalars", "bounded_scalar_positions")],
+        bounded=[_bounded.lazy("contracts.c11_multipart", "bounded_wire"), _bounded.lazy("contracts.e2e_scalars", "bounded_scalar_positions"),
+                 _bounded.lazy("contracts.e2e_pruning", "bounded_pruned_packages")],
         explanation="scalar annotation placement through the C05/C06 translator contracts, top-level variable serialisation",
         assumptions=["pydantic runs BeforeValidator/PlainSerializer once per non-null occurrence under Optional/List (assumed)"],
     ),
